@@ -145,6 +145,7 @@ Params(t) ==
     [] t = "clvl" -> << <<"n", FALSE, Val(NoneV)>>, <<"ovs", FALSE, Val(NoneV)>>, <<"path", FALSE, Val(NoneV)>>,
                         <<"default", FALSE, Val(NoneV)>> >>
     [] t = "olvl" -> << <<"n", FALSE, Val(NoneV)>>, <<"plan", FALSE, Val(NoneV)>> >>
+    [] t = "cfan" -> << <<"ovs", FALSE, Val(NoneV)>> >>
     [] t = "otree" -> << <<"kids", FALSE, Val(NoneV)>>, <<"tag", TRUE, Val(IntV(0))>> >>
     [] t \in {"ctxget", "ctxtree", "probe", "probetree", "ctxget_sh", "ctxmid", "ctxmid_sh"} -> <<>>
 
@@ -200,6 +201,10 @@ Body(t, a, jopts) ==
             ELSE ListE(Append(obs,
                    [Call("clvl", <<Val(IntV(IntOr(a[1]) - 1)), Val(ListV(Tail(a[2].v))), Val(a[3]), Val(a[4])>>)
                       EXCEPT !.ctx = Head(a[2].v)]))
+    \* siblings of one parent with different overrides reading one path through their default argument
+    [] t = "cfan" ->
+         ListE(<<GetCtx(<<"a", "b">>, IntV(7))>>
+               \o [i \in 1..Len(a[1].v) |-> [Call("ctxdef", <<Val(IntV(i - 1))>>) EXCEPT !.ctx = a[1].v[i]]])
     \* a chain of jobs, each probing its options and calling the next level with call-time options
     \* (plain and expression valued) and exported options
     [] t = "olvl" ->
